@@ -504,8 +504,10 @@ impl RowIdTreeMap {
         // Separate the start and end into high and low bits.
         let (mut start_high, mut start_low) = match range.start_bound() {
             std::ops::Bound::Included(&start) => ((start >> 32) as u32, start as u32),
+            // A range that excludes u64::MAX as its start is empty
+            std::ops::Bound::Excluded(&u64::MAX) => return 0,
             std::ops::Bound::Excluded(&start) => {
-                let start = start.saturating_add(1);
+                let start = start + 1;
                 ((start >> 32) as u32, start as u32)
             }
             std::ops::Bound::Unbounded => (0, 0),
@@ -513,8 +515,10 @@ impl RowIdTreeMap {
 
         let (end_high, end_low) = match range.end_bound() {
             std::ops::Bound::Included(&end) => ((end >> 32) as u32, end as u32),
+            // A range that excludes 0 as its end is empty
+            std::ops::Bound::Excluded(&0) => return 0,
             std::ops::Bound::Excluded(&end) => {
-                let end = end.saturating_sub(1);
+                let end = end - 1;
                 ((end >> 32) as u32, end as u32)
             }
             std::ops::Bound::Unbounded => (u32::MAX, u32::MAX),
@@ -540,6 +544,10 @@ impl RowIdTreeMap {
                 Some(RowIdSelection::Partial(set)) => {
                     count += set.insert_range(start..=end);
                 }
+            }
+            if start_high == end_high {
+                // Also avoids overflowing start_high when the range ends in fragment u32::MAX
+                break;
             }
             start_high += 1;
             start_low = 0;
